@@ -13,8 +13,9 @@
 -/
 import Gama.Lemmas.XmlEsc
 import Gama.Lemmas.CovBand
+import Gama.Lemmas.ReaderPoint
 namespace Gama.Props.C12
-open Gama Gama.XmlEsc Gama.CovBand Gama.Gen.XmlSites
+open Gama Gama.XmlEsc Gama.CovBand Gama.Gen.XmlSites Gama.ReaderPoint
 
 /-! ## escaping -/
 
@@ -123,6 +124,32 @@ theorem C12_reader_numbering (pts : List Pt) (oris : List Ori) :
     readerIndexes pts oris = List.range' 1 (indList pts oris).length :=
   readerIndexes_eq pts oris
 
+/-! ## the reader's point records -/
+
+/-- every point record the reader builds is a function of the point's own child elements, the section kind and the
+    running index only: two reader states that agree on those two push the same record and counter, whatever the
+    previous points left in `tmp_point` and the has/con flags (this is what `tmp_point.clear()` in `point(true)`
+    is for) -/
+theorem C12_reader_point_local {K : Type} (zero : K) (s t : PState K) (ha : s.adjusted = t.adjusted) (hk : s.k = t.k)
+    (id : String) (evs : List (Ev K)) :
+    (runPoint zero s (.id id :: evs)).map (fun r => (r.tmp, r.k)) =
+    (runPoint zero t (.id id :: evs)).map (fun r => (r.tmp, r.k)) :=
+  runPoint_local zero s t ha hk id evs
+
+/-- … and it is appended to the section's list, which is otherwise unchanged -/
+theorem C12_reader_point_pushed {K : Type} (zero : K) (s : PState K) (id : String) (evs : List (Ev K)) :
+    (runPoint zero s (.id id :: evs)).map (fun r => (r.tmp, r.k, r.out)) =
+      (endV (evs.foldl childV (freshV zero s.adjusted s.k id))).map (fun pk => (pk.1, pk.2, s.out ++ [pk.1])) :=
+  runPoint_spec zero s id evs
+
+/-- a point without `<z>` is read with `hz = false`, `z = 0`, `indz = 0`, `cz = false` (a plane point never inherits
+    the height or the height index of the 3D point before it) -/
+theorem C12_reader_point_no_z {K : Type} (zero : K) (adjusted : Bool) (k : Nat) (id : String) (evs : List (Ev K))
+    (h : ∀ e ∈ evs, isZ e = false) (p : PointRec K) (k' : Nat)
+    (hp : endV (evs.foldl childV (freshV zero adjusted k id)) = .ok (p, k')) :
+    p.hz = false ∧ p.z = zero ∧ p.indz = 0 ∧ p.cz = false :=
+  endV_noZ zero adjusted k id evs h p k' hp
+
 /-! ## non-vacuity -/
 
 -- `<`, `>`, `&`, `'`, `"`, `]]>` and a two-byte UTF-8 character
@@ -151,5 +178,13 @@ example : indList [⟨true, false, 0, 0, 0⟩, ⟨true, false, 3, 4, 0⟩, ⟨tr
     [⟨6, 6⟩, ⟨8, 8⟩] = [3, 4, 1, 2, 7, 5, 6, 8] := by decide
 example : readerIndexes [⟨true, false, 0, 0, 0⟩, ⟨true, false, 3, 4, 0⟩, ⟨true, true, 1, 2, 7⟩, ⟨false, true, 0, 0, 5⟩]
     [⟨6, 6⟩, ⟨8, 8⟩] = [1, 2, 3, 4, 5, 6, 7, 8] := by decide
+-- a 3D point followed by a plane point followed by a height point, under <adjusted>
+example : mixedOut.map (·.id) = ["A", "B", "C"] := by decide
+example : mixedOut.map (fun p => [p.x, p.y, p.z, p.indx, p.indy, p.indz]) =
+    [[1, 2, 3, 1, 2, 3], [4, 5, 0, 4, 5, 0], [0, 0, 6, 0, 0, 6]] := by decide
+example : mixedOut.map (fun p => [p.hxy, p.hz, p.cxy, p.cz]) =
+    [[true, true, false, false], [true, false, true, false], [false, true, false, false]] := by decide
+example : (match runPoint (0 : Nat) (sectionStart 0 false) [.id "A", .x 1 false] with
+    | .error .xWithoutY => true | _ => false) = true := by decide
 
 end Gama.Props.C12
